@@ -200,9 +200,26 @@ func run(r *mon.Report, tier string, idx int, rng *rand.Rand) {
 	cfg.Pool.PCustomLabel = 0.1
 	cfg.Catalog.MinTypes, cfg.Catalog.MaxTypes = 4, 10
 	cfg.PerPoolCatalog = rng.Intn(3) == 0
+	if rng.Intn(3) == 0 {
+		cfg.MinPools = 3
+	}
 	s := common.Build(rng, cfg)
 	e := s.Env
 	r.Eval()
+	// sometimes one pool cannot be resolved in this pass (the provider fails to list its instance types, or lists none):
+	// it hosts nothing, and every other pool must be handled exactly as if it were not there
+	unresolvable := ""
+	if len(s.Pools) >= 3 && rng.Intn(2) == 0 {
+		np := s.Pools[rng.Intn(len(s.Pools))]
+		unresolvable = np.Name
+		if rng.Intn(2) == 0 {
+			e.Provider.InstanceTypeErr[np.Name] = fmt.Errorf("injected: listing instance types failed")
+		} else {
+			e.Provider.Catalog[np.Name] = []*cloudprovider.InstanceType{}
+		}
+		optDesc["unresolvablePool"] = np.Name
+		r.Inc("worlds_with_unresolvable_pool")
+	}
 	nb := 1 + rng.Intn(10)
 	podCfg := cfg.Pod
 	for i := 0; i < nb; i++ {
@@ -248,10 +265,13 @@ func run(r *mon.Report, tier string, idx int, rng *rand.Rand) {
 		// ---- weight ----
 		opener := nc.Pods[0]
 		for _, other := range s.Pools {
-			if weightOf(other) <= weightOf(used) {
+			if weightOf(other) <= weightOf(used) || other.Name == unresolvable {
 				continue
 			}
 			r.Inc("higher_weight_pools_considered")
+			if unresolvable != "" {
+				r.Inc("higher_weight_pools_considered_next_to_an_unresolvable_pool")
+			}
 			skip := ""
 			switch {
 			case other.Spec.Limits != nil:
@@ -363,8 +383,8 @@ func init() {
 	reg.Register(&reg.Prop{
 		ID: "C19", Level: "exploration", Race: true, RaceIsViolation: true,
 		RaceFrac: map[string]float64{"quick": 0.15, "thorough": 0.05},
-		Rule: "each case = 2-5 weighted NodePools (ties and nil weights) over shared or per-pool catalogs with price ties, a batch of 1-10 pods without inter-pod constraints, parallelism in {1,2,4,8,16}, MaxInstanceTypes lowered to 2-4; real Scheduler.Solve → Truncate → Provisioner.Create. Weight monitor: the opener pod of every new NodeClaim is judged (conservatively) infeasible on every strictly heavier ready pool. Price monitor: the instance types captured at the API boundary vs the scheduler's pre-truncation options priced by cheapest compatible available offering. Non-trivial = a weight judgement against a heavier pool or an actual truncation was observed; distinct by (monitor, parallelism, preference policy, number of pools).",
-		Cases: cases, Run: run,
+		Rule:     "each case = 2-5 weighted NodePools (ties and nil weights; in a sixth of the worlds one of >=3 pools is unresolvable in the pass: provider error or empty catalog) over shared or per-pool catalogs with price ties, a batch of 1-10 pods without inter-pod constraints, parallelism in {1,2,4,8,16}, MaxInstanceTypes lowered to 2-4; real Scheduler.Solve → Truncate → Provisioner.Create. Weight monitor: the opener pod of every new NodeClaim is judged (conservatively) infeasible on every strictly heavier ready pool. Price monitor: the instance types captured at the API boundary vs the scheduler's pre-truncation options priced by cheapest compatible available offering. Non-trivial = a weight judgement against a heavier pool or an actual truncation was observed; distinct by (monitor, parallelism, preference policy, number of pools).",
+		Cases:    cases, Run: run,
 		MinObserved: map[string]int{"weight_judgements": 50, "truncations_observed": 50},
 	})
 }
